@@ -295,6 +295,28 @@ def check_files(case):
                         viol.append((f"hash_file-wrong-digest/{name}", f"len={len(s)} fs={fs.protocol} {hinfo}"))
                     if meta.size != len(s):
                         viol.append(("hash_file-wrong-size", f"{meta.size} != {len(s)}"))
+        # the same file asked for under different algorithms through one hash-state: every answer carries the
+        # requested algorithm's name and digest (every ordered pair, each also asked twice = cached)
+        from dvc_data.hashfile.state import State
+
+        algos = ("md5", "sha256", "md5-dos2unix", "sha1", "blake3")
+        small = [d for d in datas if len(d) <= 2**20][:8]
+        for i, s in enumerate(small):
+            for a1 in algos:
+                for a2 in algos:
+                    if a1 == a2:
+                        continue
+                    state = State(root_dir=w.root, tmp_dir=w.p(f"st-{i}-{a1}-{a2}"))
+                    try:
+                        p = w.p(f"f{datas.index(s)}")
+                        for name in (a1, a2, a1, a2):
+                            n += 1
+                            _meta, hinfo = hash_file(p, LFS, name, state=state)
+                            if hinfo.name != name or hinfo.value != ref.digest(name, s):
+                                viol.append((f"hash_file-through-state-wrong/{name}-after-{a1 if name == a2 else a2}",
+                                             f"len={len(s)} got {hinfo}"))
+                    finally:
+                        state.close()
     return viol, n
 
 
